@@ -161,7 +161,7 @@ def run(ctx):
         t.setdefault("max_run", 0)
         t.setdefault("nodes", 3)
     real = read_jsonl(os.path.join(ctx.work, "c31_real.jsonl"))
-    if rc != 0 or len(traces) != len(scripts) or len(real) < 5:
+    if rc != 0 or len(traces) != len(scripts) or len(real) < 7:
         ctx.tie_broken("go-harness actor grainPID lifecycle (TestVerifC31*)", out)
     if ctx.thorough and rc == 0:
         rc_r, out_r = ctx.go_test("actor", "^TestVerifC31Real", ["zz_verif_C31_test.go", "zz_verif_C30reg_test.go"], env=env, race=True, timeout=1200)
@@ -266,6 +266,20 @@ def run(ctx):
                 nd = sum(1 for e in ev if e["g"] == g and e["k"] == 5)
                 if nd > 1 or (nd == 0 and stop_ok):
                     ctx.violation("lifecycle:shutdown:OnDeactivate-count", "system shutdown: grain %s saw %d OnDeactivate calls (want exactly 1)" % (g, nd), {"scenario": sc, "events": [e for e in ev if e["g"] == g]})
+        if sc.startswith("send_during_shutdown") and not r.get("err") and "stop ok" in (r.get("notes") or []):
+            # every successful activation must have been deactivated by the time Stop returns
+            per = {}
+            for e in ev:
+                d = per.setdefault((e["g"], e["p"]), [0, 0])
+                if e["k"] == 2 and e["m"] == 1:
+                    d[0] += 1
+                elif e["k"] == 5:
+                    d[1] += 1
+            for (g, p_), (na, nd) in sorted(per.items()):
+                if na > nd:
+                    ctx.violation("lifecycle:shutdown:activation-without-OnDeactivate",
+                                  "after Stop returned, grain %s (process %d) has %d successful OnActivate but %d OnDeactivate: an instance activated during shutdown "
+                                  "was never deactivated" % (g, p_, na, nd), {"scenario": sc, "events": ev, "notes": r.get("notes")})
         if sc == "stress" and not r.get("err"):
             sent = sum(1 for e in ev if e["k"] == 3)
             real_summary[-1]["received"] = sent
